@@ -74,7 +74,7 @@ ANCHORS = [
     "aiohttp.web_middlewares:normalize_path_middleware",
     "aiohttp.web_middlewares:_check_request_resolves",
 ]
-SHARD_TIMEOUT = {"quick": 600, "thorough": 3600}
+SHARD_TIMEOUT = {"quick": 1500, "thorough": 7200}  # watchdog only (inconclusive when it fires); sized for a heavily shared host
 
 REQ_METHODS = ["GET", "POST", "PUT", "HEAD", "DELETE", "PROPFIND"]
 HOSTS = [None, "a.com", "x.a.com", "b.org"]
@@ -87,12 +87,12 @@ DOMAINS = ["a.com", "*.a.com", "*", "b.org", "*.com"]
 def shards(tier, seed):
     q = tier == "quick"
     plan = [
-        ("exh", 4 if q else 16, 36 if q else 170),
-        ("main", 5 if q else 20, 85 if q else 400),
-        ("quote", 2 if q else 6, 220 if q else 1000),
-        ("nest", 1 if q else 4, 120 if q else 500),
-        ("urlfor", 2 if q else 6, 13000 if q else 60000),
-        ("norm", 2 if q else 6, 2600 if q else 12000),
+        ("exh", 4 if q else 16, 18 if q else 120),
+        ("main", 5 if q else 20, 45 if q else 260),
+        ("quote", 2 if q else 6, 110 if q else 600),
+        ("nest", 1 if q else 4, 60 if q else 300),
+        ("urlfor", 2 if q else 6, 6500 if q else 40000),
+        ("norm", 2 if q else 6, 1300 if q else 8000),
     ]
     out = []
     for kind, n, per in plan:
@@ -911,7 +911,12 @@ async def run_norm(W: World, rec, spec, mwkw, targets, method="GET", host="a.com
 
     spec = normalise(spec)
     mw = normalize_path_middleware(**mwkw)
-    B = build_app(spec, W, middlewares=[mw])
+    try:
+        B = build_app(spec, W, middlewares=[mw])
+    except Exception as e:
+        rec.case(("build", spec), True)
+        rec.violation(build_mechanism(spec, W, e), f"[{stratum}] registering the table raised {e!r}; table={spec}", {"stratum": stratum, "op": "build", "table": spec})
+        return
     rec.count("norm:tables")
 
     async def final(request):
